@@ -79,7 +79,11 @@ func VF_C15_Submit() {
 	vf.Assume(sub.Event != types.OperationProcessed)
 	wantMsgs := append([]storage.Message{}, sub.ResultMsgs...)
 
+	// the board may refuse one Send call of the first submission (0 = healthy, k = the k-th call is refused as a whole)
+	board.failCall = vf.Choose("board.refuses-call", 3)
 	perr := e.node.ProcessOperation(sub)
+	refused := board.failCall != 0 && board.calls >= board.failCall
+	board.failCall = 0
 	sent := board.sent
 
 	// which pool entry (if any) does the submission answer?
@@ -131,6 +135,13 @@ func VF_C15_Submit() {
 		vf.Assert("rejected-sends-nothing", len(sent) == 0)
 		pending, _ := e.ops.GetOperations()
 		vf.Assert("rejected-keeps-pool", len(pending) == len(pool))
+		if refused && match >= 0 {
+			// "once": a submission the board refused is submitted again on a healthy board - the result reaches the board
+			// exactly once in total and the operation is retired
+			err4 := e.node.ProcessOperation(sub)
+			vf.Assert("refused-then-resubmitted:succeeds", err4 == nil)
+			vf.Assert("refused-then-resubmitted:once", len(board.sent) == len(wantMsgs))
+		}
 	}
 	vf.Assert("witness", false)
 }
